@@ -1,4 +1,4 @@
-HOOK_COMMITS = ["a4ec548", "01404f6"]
+HOOK_COMMITS = ["a4ec548", "01404f6", "d803445"]
 PENDING = "check under construction in this session (claimed once its harnesses exist); not yet decided"
 NA = {
  "C07": "the deciding event is a C++ compiler accepting sbeppc's textual output; there is no value to make symbolic and the producer (std::string/fmt/variant/unordered_map code driven by pugixml) cannot be lowered through the IR->C translator",
@@ -31,7 +31,7 @@ CLAIMS.update({
  "C13": {"level": "model_checking", "ref": "DESIGN.md §6 C13",
          "text": "Each of the 19 dynamic_array_ref operations (push_back, pop_back, 6 insert forms, 2 erase forms, 3 resize forms, 4 assign forms, assign_string, assign_range, clear, observers) from EVERY state (any length prefix <= CAP, any payload) with symbolic arguments equals the std::vector model: new prefix, payload, returned iterator, frame outside the area in use, no handler for valid vector operations. 4 length types x 2 byte orders x {char,uint8,int8}."},
  "C14": {"level": "model_checking", "ref": "DESIGN.md §6 C14",
-         "text": "static_array_ref<char,char,N> for N=0..5 (0..8 thorough): assign_string (C string and range, 3 eos modes), assign_range, assign(first,last), assign(ilist), fill, assign(count,v), strlen, strlen_r against the documented byte-level spec for all array contents, all inputs of length <= N, with guard bytes on both sides and the returned iterator."},
+         "text": "static_array_ref<char,char,N> for N=0..5 (0..8 thorough): assign_string (C string and range, 3 eos modes), assign_range, assign(first,last), assign(ilist), fill, assign(count,v), strlen, strlen_r against the documented byte-level spec for all array contents, all inputs of length <= N, with guard bytes on both sides and the returned iterator. The branches that only constant evaluation takes (C++20: bounded scan in strlen, string_length loop in assign_string) are lowered as ordinary code through hook H3 and meet the same obligations."},
 })
 for k in CLAIMS: NA.pop(k, None)
 
@@ -56,8 +56,8 @@ for k in CLAIMS: NA.pop(k, None)
 
 CLAIMS.update({
  "C08": {"level": "other", "ref": "DESIGN.md §6 C08",
-         "text": "PARTIAL. K1: sbe_schema_validator::value_fits_into_type -> string_to_number<T> -> libstdc++ from_chars (real code through hook H2) accepts exactly the decimal literals representable in each of the 9 integer primitive types, for all byte strings up to maxdigits+2 bytes. K3: every boundary-valid / one-edit-invalid schema that the rebuilt sbeppc accepts is layout-sound on its generated code (pairwise non-interference and containment of all members, choice bits inside the width); rejected twins are recorded (exit status + located diagnostic) as observations. Reference/cycle/kind/name/XML rules and FP literals are not encoded.",
-         "note": "C08 is claimed for the representability kernel and the accepted-implies-sound direction only. "},
+         "text": "PARTIAL. K1: sbe_schema_validator::value_fits_into_type -> string_to_number<T> -> libstdc++ from_chars (real code through hook H2) accepts exactly the decimal literals representable in each of the 9 integer primitive types, for all byte strings up to maxdigits+2 bytes. K3: every boundary-valid / one-edit-invalid schema that the rebuilt sbeppc accepts is layout-sound on its generated code (pairwise non-interference and containment of all members, choice bits inside the width); rejected twins are recorded (exit status + located diagnostic) as observations. K1-FP: float/double literals against a contract stub of strtof/strtod. K4: is_sbe_symbolic_name accepts exactly [A-Za-z_][A-Za-z0-9_]* for all byte strings up to 6 (9 thorough) bytes. K5: utils::get_valid_offset rejects exactly custom offset < minimum, for all offset values. K7: parse_value_ref splits at the first dot for all strings. Reference/cycle/kind rules, keyword/duplicate-name rules and XML-level checks are not encoded.",
+         "note": "C08 is claimed for the representability, name and offset kernels and the accepted-implies-sound direction only. "},
  "C11": {"level": "other", "ref": "DESIGN.md §6 C11",
          "text": "PARTIAL. Solver half: every getter / observer and every cursor getter (five kinds, const-byte cursor) on views with const byte type returns the reference value and leaves every byte of a symbolic buffer unchanged (visiting on const views: C19 visitcc; the 'never writes' frame assertion is also part of every C02/C04/C06/C19 harness). Type-level half is decided by the clang front end while lowering (generated static_asserts with positive controls + negative compile probes), recorded as observations, not as solver verdicts.",
          "note": "C11's compile-time half is not a solver verdict. "},
